@@ -177,7 +177,7 @@ func typesTrace(en *Env, t int, ncmd int) int {
 		at  int // number of events of the trace that precede the interrupted command
 		cmd h.Ev
 	}
-	crashy := t%3 == 0 && cfg.IO == "std"
+	crashy := t%2 == 0 && cfg.IO == "std"
 	var images []crashImg
 	var history []h.Ev
 	n := 0
@@ -215,7 +215,7 @@ func typesTrace(en *Env, t int, ncmd int) int {
 		// file that an updating command issues (process death there); the images are recovered after the trace
 		updating := c != "Get" && c != "Type" && c != "HGet" && c != "SIsMember" && c != "ZScore"
 		var taken []string
-		if crashy && updating && len(images) < 6 {
+		if crashy && updating && len(images) < 12 && (len(images) < 3 || r.Intn(3) == 0) {
 			h.SetIOHandler(func(io h.IOEv) {
 				if io.Phase != 0 || io.Kind != "write" || len(taken) >= 2 {
 					return
